@@ -842,7 +842,6 @@ where
 	let height = block_fees.height;
 	let lock_height = height + global::coinbase_maturity();
 	let key_id = block_fees.key_id();
-	let parent_key_id = wallet.parent_key_id();
 
 	// A mining node may re-request a coinbase for the key of the candidate it replaces,
 	// but only a still unconfirmed coinbase candidate may be overwritten: any other record
@@ -865,7 +864,9 @@ where
 		let commit = wallet.calc_commit_for_cache(keychain_mask, amount, &key_id)?;
 		let mut batch = wallet.batch(keychain_mask)?;
 		batch.save(OutputData {
-			root_key_id: parent_key_id,
+			// the account of the key (a re-requested candidate keeps the key, and with it
+			// the account, it was first built for - not the account that is active now)
+			root_key_id: key_id.parent_path(),
 			key_id: key_id.clone(),
 			n_child: key_id.to_path().last_path_index(),
 			mmr_index: None,
